@@ -12,11 +12,36 @@ package transport
 
 // The two transports under udpWithFallback (assumptions: an exchange either returns a fresh,
 // well-formed message or an error; the query bytes are only read).
-//@ func (t *PipelineTransport) ExchangeContext(ctx context.Context, m []byte) (r *dnsmsg.Msg, err error)
+//@ func (t *PipelineTransport) getConn(ctx context.Context) (c *pipelineConn, newConn bool, err error)
+//@   trusted
+//@   requires t != nil
+//@   modifies nothing
+// the pool hands out live connections of this transport (their monitor invariant holds between critical sections)
+//@   ensures err == nil ==> c != nil && pcInv(c) && c.t != nil && c.c != nil && c.t.logger != nil && c.ctx != nil
+//@ func (t *PipelineTransport) releaseConn(c *pipelineConn)
 //@   trusted
 //@   modifies nothing
-//@   ensures err == nil ==> r != nil && fresh(r) && wfMsg(r)
-//@   ensures err != nil ==> r == nil
+
+// ExchangeContext: at most 6 attempts (a reused connection that fails is retried at most 5 times, a freshly dialled
+// one never); every attempt sends the caller's payload itself (each connection stamps its own wire ID into a
+// private copy) and the connection is given back to the pool after each attempt.
+//@ func (t *PipelineTransport) ExchangeContext(ctx context.Context, m []byte) (r *dnsmsg.Msg, err error)
+//@   props C05 C01
+//@   requires t != nil && ctx != nil && len(m) <= 65535
+//@   ghost nTry int = 0
+//@   ghost nRel int = 0
+//@   oncall exchange?: nTry = nTry + 1
+//@   oncall releaseConn?: nRel = nRel + 1
+//@   modifies field(transport.pipelineConn.reserved), field(transport.pipelineConn.nextQid), field(transport.pipelineConn.closed), maps(dnsmsg.Msg), field(dnsmsg.Header.ID)
+//@   ensures [C05:bounded-retries] nTry <= 6 && nRel == nTry
+//@   ensures len(m) < 12 ==> nTry == 0 && err != nil
+//@   callsite exchange?: [C05:callers-payload-every-attempt] sameSlice(arg2, m, 0, len(m)) && arg1 == ctx
+//@   loop 1:
+//@     modifies field(transport.pipelineConn.reserved), field(transport.pipelineConn.nextQid), field(transport.pipelineConn.closed), maps(dnsmsg.Msg), field(dnsmsg.Header.ID), obj(errs)
+//@     invariant 0 <= retry && retry <= 5 && nTry == retry && nRel == retry
+//@     invariant loopFresh(errs) || sameObj(errs, loopOld(errs))
+//@     decreases 6 - retry
+
 //@ func (t *ReuseConnTransport) asyncDial(ctx context.Context) (c *reusableConn, err error)
 //@   trusted
 //@   requires t != nil
